@@ -452,3 +452,26 @@ Proof.
   intros Ho Hs H. apply iat_build_ok_inv in H as (_ & _ & es & El & ->). cbn [ib_with ib_entries].
   eapply iat_loop_prefix; eassumption.
 Qed.
+
+(* a batch without any trace number (options nil): strictly ascending trace numbers *)
+Lemma asc_from n : forall q lo, lo < q -> asc lo (map (fun i => q + Z.of_nat i) (seq 0 n)).
+Proof.
+  induction n as [|n IH]; intros q lo H; cbn [seq map asc]; [exact I|].
+  split; [lia|]. rewrite <- seq_shift, map_map.
+  replace (map (fun x => q + Z.of_nat (S x)) (seq 0 n)) with (map (fun i => (q + 1) + Z.of_nat i) (seq 0 n))
+    by (apply map_ext; intros i; lia).
+  apply IH. lia.
+Qed.
+
+Theorem iat_build_ascending T b b' : 0 <= ib_odfi b -> should_set (ib_opts b) = true ->
+  forallb (fun e => negb (ihas_prefix (ib_odfi b) e)) (ib_entries b) = true ->
+  zlen (ib_entries b) < P7 - 1 ->
+  iat_build T b = (true, b') -> asc 0 (map ie_trace (ib_entries b')).
+Proof.
+  intros Ho Hs Ha Hl H. rewrite (iat_build_traces T b b' H), (traces_after_fresh _ _ _ Hs Ha).
+  replace (map (fun i => ib_odfi b * P7 + (1 + Z.of_nat i) mod P7) (seq 0 (length (ib_entries b))))
+    with (map (fun i => (ib_odfi b * P7 + 1) + Z.of_nat i) (seq 0 (length (ib_entries b)))).
+  - apply asc_from. unfold P7. lia.
+  - apply map_ext_in. intros i Hi. apply in_seq in Hi. unfold zlen in Hl.
+    rewrite Z.mod_small by (unfold P7 in *; lia). lia.
+Qed.
